@@ -597,6 +597,67 @@ def r38_zone_sign_consumers(ctx):
                   "minutes" % (f.qual, why), props)
 
 
+def _r38_minutes_signed_by_hours(ctx, rep):
+    """The sign of an offset is a property of the pair: -00:30 has zero
+    hours and negative minutes.  Nowhere is the sign of a minute number
+    decided by testing the *value* of the hour number."""
+    from ..flow import zero_relation
+    rule = "R38.zone-sign-consumer"
+    for f in ctx.model.all_functions():
+        for n in walk_no_nested(f.node):
+            if not isinstance(n, (ast.If, ast.IfExp)):
+                continue
+            t = n.test
+            pol = True
+            if isinstance(t, ast.UnaryOp) and isinstance(t.op, ast.Not):
+                t, pol = t.operand, False
+            r = zero_relation(t, pol)
+            if r is None or "hour" not in r[0].lower() or r[1] not in (
+                    "<", ">", "<=", ">="):
+                continue
+            if isinstance(n, ast.IfExp):
+                continue
+            hits = []
+            for st in list(n.body) + list(n.orelse):
+                for a in ast.walk(st):
+                    tgt = val = None
+                    if isinstance(a, ast.Assign) and len(a.targets) == 1:
+                        tgt, val = a.targets[0], a.value
+                    elif isinstance(a, ast.AugAssign) and isinstance(
+                            a.op, ast.Mult):
+                        tgt, val = a.target, a.value
+                    if tgt is None or "minute" not in U(tgt).lower():
+                        continue
+                    signs = any(
+                        (isinstance(x, ast.UnaryOp) and isinstance(
+                            x.op, ast.USub) and not isinstance(
+                                x.operand, ast.Constant)) or
+                        (isinstance(x, ast.Call) and U(x.func) == "abs")
+                        for x in ast.walk(val)) or (
+                            isinstance(a, ast.AugAssign) and U(val) in (
+                                "-1", "(-1)"))
+                    if signs:
+                        hits.append(U(a)[:50])
+            if hits:
+                rep.violation(
+                    rule, ctx.fkey(f, n, "minutes-by-hour-value"),
+                    f.loc(n),
+                    "%s gives the minutes their sign (%s) under a test of "
+                    "the hour number's value (`%s`): an offset with zero "
+                    "hours and negative minutes (-00:30) has no negative "
+                    "hour to test, so its minutes come out positive" % (
+                        f.qual, "; ".join(hits), U(n.test)[:50]),
+                    ("C06", "C07", "C08", "C18"))
+
+
+_r38_orig = r38_zone_sign_consumers
+
+
+def r38_zone_sign_consumers(ctx):      # noqa: F811
+    _r38_orig(ctx)
+    _r38_minutes_signed_by_hours(ctx, ctx.rep)
+
+
 RULES = {"R35": r35_fraction_digits, "R36": r36_none_vs_zero,
          "R37": r37_shared_config, "R38": r38_zone_sign_consumers}
 
@@ -639,6 +700,95 @@ def r39_no_magic_lengths(ctx):
                 "(a December of 31 days or a year of 12x31... is right for "
                 "one calendar only)" % (f.qual, n.value),
                 ("C03", "C15", "C01"))
+    # the number of weeks of a week-year is *counted* from the year lengths
+    # of the active calendar (the distance between two week-year starts): a
+    # constant, or the count pushed through min()/max(), is one calendar's
+    # answer given to all of them (a 360-day year has 51 weeks more often
+    # than not)
+    g = ctx.try_func("data._get_weeks_in_year")
+    if g is not None:
+        from ..flow import expand_values
+
+        def contributors(e):
+            names = {n.id for n in ast.walk(e) if isinstance(n, ast.Name)}
+            calls = {U(n.func) for n in ast.walk(e)
+                     if isinstance(n, ast.Call)}
+            seen = set()
+            while names - seen:
+                nm = (names - seen).pop()
+                seen.add(nm)
+                for st in walk_no_nested(g.node):
+                    tg = None
+                    if isinstance(st, ast.Assign):
+                        tg = st.targets
+                    elif isinstance(st, ast.AugAssign):
+                        tg = [st.target]
+                    elif isinstance(st, ast.For):
+                        if any(isinstance(x, ast.Name) and x.id == nm
+                               for x in ast.walk(st.target)):
+                            names |= {n.id for n in ast.walk(st.iter)
+                                      if isinstance(n, ast.Name)}
+                            calls |= {U(n.func) for n in ast.walk(st.iter)
+                                      if isinstance(n, ast.Call)}
+                        continue
+                    if tg and any(isinstance(x, ast.Name) and x.id == nm
+                                  for t in tg for x in ast.walk(t)):
+                        names |= {n.id for n in ast.walk(st.value)
+                                  if isinstance(n, ast.Name)}
+                        calls |= {U(n.func) for n in ast.walk(st.value)
+                                  if isinstance(n, ast.Call)}
+            return calls
+        for r in walk_no_nested(g.node):
+            if not (isinstance(r, ast.Return) and r.value is not None):
+                continue
+            for leaf, _c in expand_values(g.node, r.value):
+                own_calls = {U(n.func) for n in ast.walk(leaf)
+                             if isinstance(n, ast.Call)}
+                calls = contributors(leaf)
+                counted = any(c == "get_days_in_year" or
+                              "week_date_start" in c or
+                              c == "get_days_in_year_range" for c in calls)
+                clamped = own_calls & {"min", "max"}
+                rep.check(counted and not clamped, rule,
+                          ctx.fkey(g, r, "week-count"), g.loc(r),
+                          "the week count returned is counted from the "
+                          "active calendar's year lengths",
+                          "_get_weeks_in_year returns `%s`, which %s: the "
+                          "number of weeks of a week-year is the distance "
+                          "between two week-year starts in the active "
+                          "calendar (51 for most years of the 360-day "
+                          "calendar), whatever ISO 8601 says about "
+                          "Gregorian years" % (
+                              U(leaf)[:60],
+                              "is clamped by %s" % sorted(clamped)
+                              if clamped else "does not depend on "
+                              "get_days_in_year or the week-year starts"),
+                          ("C03", "C15", "C01", "C02", "C20", "C07"))
+    # the common-year constant is not "the length of a year": a function
+    # that reads CALENDAR.DAYS_IN_YEAR without also reading
+    # DAYS_IN_YEAR_LEAP measures every year with the common year's length
+    # (a year-at-a-time fast path that compares with 365 and consumes
+    # get_days_in_year(y) jumps over 31 December of a leap year)
+    for f in ctx.model.all_functions():
+        if f.module is not m or (f.cls is not None and
+                                 f.cls.name == "Calendar"):
+            continue
+        reads = {}
+        for n in walk_no_nested(f.node):
+            if isinstance(n, ast.Attribute) and n.attr in (
+                    "DAYS_IN_YEAR", "DAYS_IN_YEAR_LEAP") and isinstance(
+                        n.ctx, ast.Load):
+                reads.setdefault(n.attr, n)
+        if "DAYS_IN_YEAR" in reads and "DAYS_IN_YEAR_LEAP" not in reads:
+            n = reads["DAYS_IN_YEAR"]
+            rep.violation(
+                rule, ctx.fkey(f, None, "common-year-only"), f.loc(n),
+                "%s measures with CALENDAR.DAYS_IN_YEAR alone (`%s`): that "
+                "is the length of a common year; the length of year y is "
+                "get_days_in_year(y), and a test against the one with a "
+                "step by the other skips or repeats a day in leap years" % (
+                    f.qual, U(parent(n))[:60]),
+                ("C03", "C15", "C01", "C18", "C17", "C05", "C12"))
     rep.anchor(rule, "calendar functions", n_funcs)
     rep.ok(rule, "data.py:no-magic-lengths", "-",
            "%d functions of data.py compute with no literal month/year/week "
@@ -1054,6 +1204,57 @@ def r44_epoch_delegation(ctx):
                   % (fn.qual, what, sorted(short)[:8],
                      ", own day counting via %s" % own if own else ""),
                   ("C18", "C17"))
+    # what the property prints is the whole difference: 86400 * days +
+    # seconds of (self - epoch), through int() and str() and nothing else
+    # (no correction term on any path)
+    from ..dtable import explore as _explore44
+    from ..linear import lin as _lin44, Lin as _Lin44, same as _same44
+    parts = None
+    for n in walk_no_nested(f.node):
+        if isinstance(n, ast.Assign) and isinstance(
+                n.targets[0], ast.Tuple) and len(
+                    n.targets[0].elts) == 2 and isinstance(
+                        n.value, ast.Call) and U(n.value.func).endswith(
+                            "get_days_and_seconds"):
+            parts = [U(x) for x in n.targets[0].elts]
+    key44 = ctx.fkey(f, None, "whole-difference")
+    if parts is None:
+        rep.undecided(rule, key44, f.loc(), "seconds_since_unix_epoch does "
+                      "not take (days, seconds) from get_days_and_seconds()",
+                      ("C18", "C17"))
+    else:
+        try:
+            paths44 = _explore44(f.node.body)
+        except AnalysisError as exc:
+            paths44 = None
+            rep.undecided(rule, key44, f.loc(), "not tabulated: %s" % exc,
+                          ("C18", "C17"))
+        if paths44 is not None:
+            want = _Lin44({parts[0]: 86400, parts[1]: 1})
+            bad44, n44 = [], 0
+            for p_ in paths44:
+                if p_.outcome != "return" or p_.value is None:
+                    continue
+                v = p_.value
+                while isinstance(v, ast.Call) and U(v.func) in (
+                        "str", "int") and len(v.args) == 1:
+                    v = v.args[0]
+                n44 += 1
+                got = _lin44(v, {})
+                e0, e1 = p_.env.get(parts[0]), p_.env.get(parts[1])
+                if isinstance(e0, ast.AST) and isinstance(e1, ast.AST):
+                    want = _lin44(e0, {}).scale(86400).add(_lin44(e1, {}))
+                if not _same44(got, want):
+                    bad44.append("%s when %s" % (got.text()[:60],
+                                                 p_.when()[:60] or "always"))
+            rep.check(n44 > 0 and not bad44, rule, key44, f.loc(),
+                      "the count printed is int(86400 * days + seconds) of "
+                      "the difference to the epoch on every path",
+                      "TimePoint.seconds_since_unix_epoch prints %s instead "
+                      "of 86400 * %s + %s: a correction term shifts every "
+                      "instant it applies to (1969-12-31T23:59:59Z is -1, "
+                      "not -2)" % (bad44[:2], parts[0], parts[1]),
+                      ("C18", "C17"))
     # the Duration added by the inverse carries the count in seconds only
     for n in walk_no_nested(g.node):
         if isinstance(n, ast.Call) and U(n.func) == "Duration":
@@ -1658,6 +1859,85 @@ def r49_week_year_span(ctx):
                       sorted(offs), P)
     _r49_years_walked(ctx, rep, rule, P + ("C15",))
     _r49_match_names_year(ctx, rep, rule, P + ("C15", "C17"))
+    _r49_same_year_is_bounded(ctx, rep, rule, P + ("C17",))
+
+
+def _r49_same_year_is_bounded(ctx, rep, rule, P):
+    """A date belongs to week-year Y iff start(Y) <= date < start(Y + 1).
+    Where a conversion to a week date answers with the calendar year it was
+    given (computed directly, not by delegating to another conversion), the
+    path has compared the date with the start of week-year Y + 1: the last
+    days of December belong to the next week-year more often than not."""
+    from ..flow import path_conds, alternatives
+    for q in ("data.get_week_date_from_ordinal_date",
+              "data.get_week_date_from_calendar_date"):
+        g = ctx.try_func(q)
+        if g is None or not g.params:
+            continue
+        yp = g.params[0]
+
+        def is_next_start(c):
+            """a call of a *_week_date_start helper for year + 1 (first
+            positional argument or a keyword)"""
+            if not (isinstance(c, ast.Call) and "week_date_start" in U(
+                    c.func)):
+                return False
+            vals = list(c.args[:1]) + [k.value for k in c.keywords]
+            return any(U(v).replace("(", "").replace(")", "") in (
+                "%s + 1" % yp, "1 + %s" % yp) for v in vals)
+
+        def next_start_names():
+            out = set()
+            for n in walk_no_nested(g.node):
+                if not isinstance(n, ast.Assign):
+                    continue
+                hit = any(is_next_start(c) for c in ast.walk(n.value))
+                if hit:
+                    for t in n.targets:
+                        out |= {x.id for x in ast.walk(t)
+                                if isinstance(x, ast.Name)}
+            # names computed from those
+            changed = True
+            while changed:
+                changed = False
+                for n in walk_no_nested(g.node):
+                    if isinstance(n, ast.Assign) and any(
+                            isinstance(x, ast.Name) and x.id in out
+                            for x in ast.walk(n.value)):
+                        for t in n.targets:
+                            for x in ast.walk(t):
+                                if isinstance(x, ast.Name) and \
+                                        x.id not in out:
+                                    out.add(x.id)
+                                    changed = True
+            return out
+        nxt = next_start_names()
+        for r in walk_no_nested(g.node):
+            if not (isinstance(r, ast.Return) and isinstance(
+                    r.value, ast.Tuple) and len(r.value.elts) == 3):
+                continue
+            e = r.value.elts[0]
+            cands = [(e, [])]
+            if isinstance(e, ast.Name) and e.id != yp:
+                cands = alternatives(g.node, e.id) or [(e, [])]
+            for v, conds in cands:
+                if U(v) != yp:
+                    continue
+                allc = list(conds) + list(path_conds(r))
+                names = {x.id for t, _p in allc for x in ast.walk(t)
+                         if isinstance(x, ast.Name)}
+                calls = any(is_next_start(c)
+                            for t, _p in allc for c in ast.walk(t))
+                rep.check(bool(names & nxt) or calls, rule,
+                          ctx.fkey(g, r, "same-year-bounded"), g.loc(r),
+                          "the week-year %s is answered only below the "
+                          "start of week-year %s + 1" % (yp, yp),
+                          "%s answers week-year `%s` on a path that never "
+                          "compares the date with the start of week-year "
+                          "%s + 1: 29-31 December of a year whose successor "
+                          "starts in December (2018-365, 2024-366) belong "
+                          "to week 1 of the next week-year, not to week 53 "
+                          "of this one" % (g.qual, yp, yp), P)
 
 
 def _r49_match_names_year(ctx, rep, rule, P):
